@@ -828,16 +828,22 @@ func (s *Stream) handshake(addr string, headers []Header, callback func(err erro
 	if err != nil {
 		callback(err, nil)
 	} else {
+		// A failed handshake must not leave the connection open: nobody else is going to close it. It is closed once
+		// dial has returned: the callback below runs inside RawConn.Control, which holds a reference to the descriptor,
+		// and net.Conn.Close waits for that reference to be dropped.
+		var failed net.Conn
 		s.dial(url, func(err error, stream sonic.Stream) {
 			if err == nil {
 				err = s.upgrade(url, stream, headers)
 			}
 			if err != nil {
-				// A failed handshake must not leave the connection open: nobody else is going to close it.
-				_ = s.CloseNextLayer()
+				failed, s.conn = s.conn, nil
 			}
 			callback(err, stream)
 		})
+		if failed != nil {
+			_ = failed.Close()
+		}
 	}
 }
 
